@@ -19,8 +19,6 @@ import (
 	"github.com/plgd-dev/go-coap/v3/message/pool"
 	"github.com/plgd-dev/go-coap/v3/net/client"
 	"github.com/plgd-dev/go-coap/v3/options"
-	"github.com/plgd-dev/go-coap/v3/tcp"
-	"github.com/plgd-dev/go-coap/v3/udp"
 	"pgregory.net/rapid"
 
 	"verif/bubble"
@@ -29,6 +27,7 @@ import (
 	"verif/memnet"
 	"verif/peer"
 	"verif/refcodec"
+	"verif/roles"
 	"verif/udpsrv"
 	"verif/wire"
 )
@@ -47,6 +46,8 @@ type Scenario struct {
 	// OnCloseNested: the first on-close callback registers this many further callbacks while it
 	// runs (registration during shutdown must not disturb the callbacks registered before it)
 	OnCloseNested int `json:"onCloseNested,omitempty"`
+	// Role: "" a client connection; "server" the connection a tcp / dtls server creates for an accepted peer
+	Role string `json:"role,omitempty"`
 }
 
 type conn interface {
@@ -73,6 +74,8 @@ func Exec(t *testing.T, sc Scenario, r *evid.Run) *evid.Failure {
 		var w wire.Wire
 		var cc conn
 		var slink *memnet.StreamLink
+		stopRole := func() {}
+		defer func() { stopRole() }() // (the scenario function has early returns)
 		limit, nstart := int64(16), uint32(16)
 		if sc.Queued == "limiter" {
 			limit = 1
@@ -83,12 +86,16 @@ func Exec(t *testing.T, sc Scenario, r *evid.Run) *evid.Failure {
 		bwOn := sc.Op == "post-bw"
 		if sc.Transport == "udp" {
 			link := memnet.NewPacketLink(memnet.LinkCfg{LatencyMs: 1})
-			cc = endpoints.UDP(link.A, []udp.Option{
+			c, stop, errRole := roles.Packet(sc.Role, link, bubble.Wait, []any{
 				options.WithMessagePool(pool.New(8, 2048)), options.WithPeriodicRunner(tk.Runner()),
 				options.WithBlockwise(bwOn, 2, 3*time.Second),
 				options.WithLimitClientParallelRequest(limit), options.WithLimitClientEndpointParallelRequest(limit),
 				options.WithTransmission(nstart, 2*time.Second, 2),
 			}...)
+			if errRole != nil {
+				panic(errRole)
+			}
+			cc, stopRole = c, stop
 			w = wire.UDP(link)
 		} else {
 			buf := 256 << 10
@@ -99,7 +106,7 @@ func Exec(t *testing.T, sc Scenario, r *evid.Run) *evid.Failure {
 			if bwOn {
 				_, _ = slink.B.Write(peer.Frame(refcodec.Msg{Code: 225, Token: []byte{1}, Opts: []refcodec.Opt{peer.Opt(4, nil)}}))
 			}
-			c, err := endpoints.TCP(slink.A, []tcp.Option{
+			c, stop, err := roles.Stream(sc.Role, slink, bubble.Wait, []any{
 				options.WithMessagePool(pool.New(8, 2048)), options.WithPeriodicRunner(tk.Runner()),
 				options.WithBlockwise(bwOn, 2, 3*time.Second), options.WithCloseSocket(), options.WithMaxMessageSize(1 << 20),
 				options.WithLimitClientParallelRequest(limit), options.WithLimitClientEndpointParallelRequest(limit),
@@ -107,7 +114,7 @@ func Exec(t *testing.T, sc Scenario, r *evid.Run) *evid.Failure {
 			if err != nil {
 				panic(err)
 			}
-			cc, w = c, wire.TCP(slink)
+			cc, w, stopRole = c, wire.TCP(slink), stop
 		}
 		onClose := make([]atomic.Int32, sc.OnClose)
 		nested := make([]atomic.Int32, sc.OnCloseNested)
@@ -384,6 +391,7 @@ func Exec(t *testing.T, sc Scenario, r *evid.Run) *evid.Failure {
 			_ = slink.B.Close()
 		}
 		cancel()
+		stopRole()
 		time.Sleep(time.Second)
 		bubble.Wait()
 		if fail == nil {
@@ -478,6 +486,9 @@ func gen(t *rapid.T) Scenario {
 		OnClose:       rapid.IntRange(0, 3).Draw(t, "onclose"),
 		OnCloseNested: rapid.SampledFrom([]int{0, 0, 1, 2, 3}).Draw(t, "onclosenested"),
 		Blocks:        rapid.IntRange(0, 3).Draw(t, "blocks"),
+	}
+	if rapid.IntRange(0, 2).Draw(t, "role") == 0 {
+		sc.Role = "server"
 	}
 	peers := []string{"silent", "silent", "ack", "garbage", "blocks"}
 	if sc.Transport == "tcp" {
